@@ -179,6 +179,24 @@ theorem C15_resume (E : Env ω ρ ξ α) (cb : Option (Callback ω)) (d : Drv ω
   simp only [setMaxiter_maxiter, Int.toNat_natCast, setMaxiter_nanstop, setMaxiter_world] at this
   exact this
 
+/-- **Resumption, interrupted.**  If the NaN stop trips in (globally counted) iteration
+    `j ≥ m₁` — i.e. during the second call — the two-call run and the single long run raise the
+    same exception with the same state, counter and records. -/
+theorem C15_resume_nanstop (E : Env ω ρ ξ α) (cb : Option (Callback ω)) (d : Drv ω ρ L) (m1 m2 g : Nat)
+    (hr : Ready d) (j : Nat) (hj1 : m1 ≤ j) (hj2 : j < m1 + m2)
+    (hbefore : ∀ k < j, ¬ tripsAt E cb d.world d.nanstop k) (hat : tripsAt E cb d.world d.nanstop j) :
+    let r1 := solve E cb (d.setMaxiter m1)
+    let r2 := solve E cb ((r1.1.tick g).setMaxiter m2)
+    let r := solve E cb (d.setMaxiter ((m1 + m2 : Nat) : Int))
+    r1.2 = .ok ∧ r2.2 = .nan ∧ r.2 = .nan ∧ r2.1.world = r.1.world ∧ r2.1.itnum = r.1.itnum ∧
+      r2.1.rows = r.1.rows ∧ r2.1.clock = r.1.clock + g := by
+  apply solve_resume_trip E cb d m1 m2 g hr.labels hr.past j hj1 hj2
+  · intro k hk
+    have := hbefore k hk
+    rw [← tripsB_iff] at this
+    simpa using this
+  · exact (tripsB_iff E cb d.world d.nanstop j).mpr hat
+
 /-- **NaN stop.**  If `j` is the first iteration (0-based) after whose `step()` some entry of some
     block of some working variable is non-finite (with `nanstop` on), `solve()` raises in that
     iteration: the counter shows `itnum + j`, exactly the records and callbacks of the `j` earlier
@@ -264,6 +282,18 @@ theorem C15_logged_invariant (E : Env ω ρ ξ α) (cb : Option (Callback ω)) (
       ∀ d : Drv ω ρ L, Logged cfg d → Logged cfg (solve E cb d).1 :=
   ⟨logged_init w o cfg hc c0, fun _ hl => logged_solve E cb hl⟩
 
+/-- **Any sequence of `solve()` calls.**  For every list of calls `solver.maxiter = mᵢ;
+    solver.solve(cbᵢ)` (any length, any iteration counts, with or without callbacks) none of which
+    is interrupted: the counter ends at `itnum + Σ max(mᵢ,0)` and the records of all the calls
+    together are numbered consecutively `itnum, itnum+1, …` — calling `solve()` again continues the
+    numbering, and `maxiter = 0` calls in between change nothing. -/
+theorem C15_history (E : Env ω ρ ξ α) (calls : List (Int × Option (Callback ω))) (d : Drv ω ρ L)
+    (hr : Ready d) (hok : AllOk E calls d) :
+    (runSolves E calls d).itnum = d.itnum + (totalIters calls : Int) ∧
+      (runSolves E calls d).rows.map (·.iter) =
+        d.rows.map (·.iter) ++ (List.range (totalIters calls)).map (fun (k : Nat) => d.itnum + (k : Int)) :=
+  ⟨(runSolves_numbering E calls d hr hok).1, (runSolves_numbering E calls d hr hok).2.1⟩
+
 end Solve
 
 /-! ### non-vacuity: a concrete optimiser satisfying every hypothesis above -/
@@ -302,6 +332,11 @@ example : (solve exEnv (some exCb) exDrv).1.itnum = 5 ∧ (solve exEnv (some exC
 -- resuming for three more iterations trips the NaN stop in the iteration numbered 5 (4th step)
 example : (solve exEnv none (solve exEnv (some exCb) exDrv).1).2 = .nan ∧
     (solve exEnv none (solve exEnv (some exCb) exDrv).1).1.itnum = 5 := by decide
+-- three calls (2 iterations with callback, 0 iterations, 1 iteration): none raises, numbering 2,3,4
+example : AllOk exEnv [(2, some exCb), (0, none), (1, none)] exDrv := by
+  refine ⟨by decide, by decide, by decide, trivial⟩
+example : (runSolves exEnv [(2, some exCb), (0, none), (1, none)] exDrv).rows.map (·.iter) = [2, 3, 4] := by
+  decide
 example : tripsAt exEnv none 3 true 0 := by
   refine ⟨rfl, Var.block [[true], [false]], by simp [exEnv, afterStep, worldAt], ?_⟩
   exact ⟨[false], by simp, false, by simp, rfl⟩
